@@ -258,6 +258,11 @@ def build_misc(rng: random.Random, dw: bool = False) -> Any:
         inner = pt.make_dict_of_named_arrays({"p": x + 1, "q": y * 2})
         i1 = pt.make_placeholder("i1", (2,), np.int64)
         outs["n"] = inner["p"] * 2 + inner["q"]
+        if rng.random() < 0.7:
+            # named arrays carrying tags / axis tags of their own (distinct from the entry
+            # the container hands out), as operands and as an output
+            outs["nt"] = inner["p"].tagged(VTag(9)) - inner["q"].with_tagged_axis(0, VAxisTag(4))
+            outs["nt2"] = inner["q"].tagged(VTag(11))
         z = pt.make_placeholder("z", (3, 4, 5), np.float64)
         outs["r"] = z[i1, :, i1]
         if dw:
